@@ -11,10 +11,14 @@ TEST = "TestVerifPrecreateReplay"
 INVS = ["TypeOK", "X04a_TwinEqual", "X04a_Successor", "X04b_NoOverlap", "X04b_NoResurrect",
         "X04b_OnlySuccessorOfLiveNewest", "X04b_Fixpoint", "PrecreateUnchangedByOthers", "X04c_Window", "X04c_EmptyNever"]
 
+# FixSucc: the successor instant is end(newest) (patches/X04/01-fix) instead of end(newest)+1ns (code as found): the model
+# describes the repaired code; X04_ASFOUND=1 checks the model of the code as found (X04a fails in family Prune: negative control)
+FIX = not os.environ.get("X04_ASFOUND")
+
 # instants: 4 ticks = 1h; 4q+1 = q h + 1ns, 4q+3 = (q+1) h - 1ns
 GEN = {"WTimes": [0, 1, 7, 8, 9, 12, 15, 16, 19, 24, 33], "TTimes": [0, 3, 7, 8, 9, 12, 16, 17],
        "NowTimes": [0, 3, 7, 8, 9, 11, 12, 15, 16, 17, 23, 24, 25], "Advs": [1, 2, 8, 9, 17], "Durs": [4, 8, 12],
-       "D0": 8, "MaxG": 6, "FixSucc": False, "Probes": [0, 7, 8, 9, 12, 16, 20, 24, 28]}
+       "D0": 8, "MaxG": 6, "FixSucc": FIX, "WithPrune": True, "Script": '"none"', "Probes": [0, 7, 8, 9, 12, 16, 20, 24, 28]}
 
 
 def mc_families(ctx):
@@ -22,13 +26,16 @@ def mc_families(ctx):
     fam = {}
     # window boundaries: one duration, clock and advance around the group end 8 (= 2h): 7, 8, 9 = 2h-1ns, 2h, 2h+1ns
     fam["Window"] = {"WTimes": [0, 8, 19], "TTimes": [7, 9] if not t else [7, 8, 9], "NowTimes": [0, 7, 8, 9] if not t else [0, 7, 8, 9, 15, 16, 17],
-                     "Advs": [1, 2, 8, 9], "Durs": [8], "D0": 8, "MaxG": 3, "FixSucc": False}
+                     "Advs": [1, 2, 8, 9], "Durs": [8], "D0": 8, "MaxG": 3, "FixSucc": FIX, "WithPrune": False}
     # truncation and deletion of the newest / the pre-created group
     fam["Trunc"] = {"WTimes": [0, 9] if not t else [0, 9, 19], "TTimes": [3, 7, 8, 9] if not t else [3, 7, 8, 9, 12], "NowTimes": [0, 7, 9],
-                    "Advs": [9], "Durs": [8], "D0": 8, "MaxG": 3 if not t else 4, "FixSucc": False}
+                    "Advs": [9], "Durs": [8], "D0": 8, "MaxG": 3 if not t else 4, "FixSucc": FIX, "WithPrune": False}
     # altered shard-group duration
     fam["Alter"] = {"WTimes": [0, 9] if not t else [0, 9, 12], "TTimes": [7] if not t else [7, 8], "NowTimes": [0, 8] if not t else [0, 7, 8],
-                    "Advs": [9, 17], "Durs": [4, 8, 12], "D0": 8, "MaxG": 3, "FixSucc": False}
+                    "Advs": [9, 17], "Durs": [4, 8, 12], "D0": 8, "MaxG": 3, "FixSucc": FIX, "WithPrune": False}
+    # pruning of deleted groups: the newest group may then end 1ns before a whole multiple of the duration
+    fam["Prune"] = {"WTimes": [0, 7] if not t else [0, 7, 8], "TTimes": [7], "NowTimes": [0, 3], "Advs": [9], "Durs": [8] if not t else [8, 12],
+                    "D0": 8, "MaxG": 4, "FixSucc": FIX, "WithPrune": True}
     return fam
 
 
@@ -48,10 +55,12 @@ def mc(ctx, sd):
         log("X04: MC %-7s %8d distinct %9d generated %6.1fs" % (name, r["distinct"], r["generated"], r["wall_s"]))
         if r["distinct"] < 200:
             raise Infra("exhaustive configuration %s is vacuous (%d states)" % (name, r["distinct"]))
-        if r.get("zero_coverage"):
-            z = [x for x in r["zero_coverage"] if "Precreate" in x and not x.startswith(("Alter", "Tick")) or x.startswith(("Write", "Truncate", "Delete"))]
-            if name != "Window" and name != "Trunc" and z:
-                raise Infra("actions never taken in %s: %s" % (name, z))
+    # vacuity (thorough tier, -coverage): every action of the spec is taken in at least one family
+    zs = [set(x.split("@")[0] for x in r.get("zero_coverage", [])) for _, r in res if "zero_coverage" in r]
+    if zs:
+        never = set.intersection(*zs) & {"Write", "Precreate", "Truncate", "Alter", "Delete", "Prune", "Tick"}
+        if never:
+            raise Infra("actions never taken in any exhaustive family: %s" % sorted(never))
 
 
 def gen(ctx, sd):
@@ -69,19 +78,27 @@ def gen(ctx, sd):
     jobs.append(("bfs", "GenX.cfg", dict(GEN, GenLen=xl, Sim=False, WTimes=[0, 9], TTimes=[7], NowTimes=[0, 7, 8], Advs=[1, 9],
                                          Durs=[8, 12], MaxG=3, Probes=[0, 7, 8, 12, 16]),
                  dict(exhaustive=True, workers=2), ctx.pick(600, 6000)))
+    # scripted corners, then every continuation of 2 (thorough: 3) steps
+    for sc, extra in (("endMinus1ns", dict(WTimes=[0, 7, 8], TTimes=[7], NowTimes=[0, 3, 7, 8], Advs=[1, 9], Durs=[8, 12], MaxG=5)),
+                      ("truncAlter", dict(WTimes=[0, 9, 12], TTimes=[7, 8], NowTimes=[0, 7], Advs=[9, 17], Durs=[4, 8, 12], MaxG=4)),
+                      ("preDeleted", dict(WTimes=[0, 9, 16], TTimes=[9], NowTimes=[0, 8], Advs=[9, 17], Durs=[8, 12], MaxG=4))):
+        sl = {"endMinus1ns": 7, "truncAlter": 3, "preDeleted": 3}[sc]
+        jobs.append(("script-" + sc, "GenS-%s.cfg" % sc, dict(GEN, GenLen=sl + ctx.pick(2, 3), Sim=False, Script='"%s"' % sc,
+                                                              Probes=[0, 7, 8, 12, 16], **extra),
+                     dict(exhaustive=True, workers=2), ctx.pick(200, 3000)))
     for tag, cfg, c, kw, lim in jobs:
         ctx.write_cfg(sd, cfg, "GSpec", c, extra="INVARIANT Emit")
 
     def one(job):
         tag, cfg, c, kw, lim = job
         got = ctx.tlc_generate(sd, "PrecreateGen", cfg, timeout=900, **kw)
-        if tag == "bfs" and len(got) > lim:        # deterministic thinning, keeps every k-th
+        if kw.get("exhaustive") and len(got) > lim:        # deterministic thinning, keeps every k-th
             k = (len(got) + lim - 1) // lim
             got = got[ctx.seed % k::k]
         return tag, got[:lim]
 
     with concurrent.futures.ThreadPoolExecutor(max_workers=3) as ex:
-        return list(ex.map(one, jobs))
+        return list(ex.map(one, jobs))     # three JVMs at a time
 
 
 def replay(ctx, behs, label, timeout=1500):
@@ -132,13 +149,19 @@ def run(ctx):
     cover = done.get("cover", {})
     log("X04: replay %.0fs: %s" % (time.time() - t0, {k: done.get(k) for k in ("behaviours", "steps", "groups_created", "mismatching_behaviours")}))
     ctx.cov["traces_validated_against_impl"] += done.get("behaviours", 0)
-    need = ["Precreate:true", "Precreate:false", "Write:true", "Write:false", "Truncate:false", "Alter:false", "Delete:false", "Tick:false"]
+    need = ["Precreate:true", "Precreate:false", "Write:true", "Write:false", "Truncate:false", "Alter:false", "Delete:false", "Tick:false", "Prune:false"]
     missing = [k for k in need if not cover.get(k)]
     if missing and not ctx.violations:
         raise Infra("step classes never replayed: %s" % missing)
 
-    svc = simple(ctx, PKG, FILES, "TestVerifPrecreateService", "service")
+    # the recording client first: a wrong cutoff is a violation there, and only a watchdog expiry in the end-to-end run
     tim = simple(ctx, "services/precreator", ["precreator/zz_verif_precreator_test.go"], "TestVerifPrecreatorTiming", "timing")
+    try:
+        svc = simple(ctx, PKG, FILES, "TestVerifPrecreateService", "service")
+    except Infra:
+        if not ctx.violations:
+            raise
+        svc = {"skipped": "watchdog after violations were already established"}
     ann = {}
     if os.path.exists(os.path.join(os.path.dirname(os.path.dirname(os.path.abspath(__file__))), "harness", "announcer", "zz_verif_announcer_test.go")):
         ann = simple(ctx, "services/announcer", ["announcer/zz_verif_announcer_test.go"], "TestVerifAnnouncer", "announcer")
@@ -153,6 +176,6 @@ def run(ctx):
     return ctx.finish("model_checking", extra, assumptions=[
         "one policy, two data nodes, replication 1; policies/databases are independent in PrecreateShardGroups (a policy without groups is checked to stay empty)",
         "at most 12 groups per policy (sort.Sort is an insertion sort, i.e. stable, up to 12 elements)",
-        "PruneShardGroups (removal of deleted groups after two weeks) is not part of the histories",
+        "PruneShardGroups: 'two weeks pass' is emulated by moving the deletion stamps back in the store's value (in-package)",
         "X04a is the step equivalence 'pre-creation = a point arriving at the first instant after the newest group'; dropping "
         "pre-creation altogether is not equivalent when a truncation or an altered duration falls between it and the first write"])
